@@ -35,7 +35,7 @@ def split_scenarios(text):
     return blocks
 
 
-def run_driver(qsx, scen_text, workdir, tag, crash_props, call_timeout=20, wall=600, env=None):
+def run_driver(qsx, scen_text, workdir, tag, crash_props, call_timeout=20, wall=600, env=None, one_per_process=False):
     """run all scenario blocks; restart after a crash with the remaining blocks.
     returns (events, info) - events: list of cooked event dicts"""
     os.makedirs(workdir, exist_ok=True)
@@ -48,7 +48,7 @@ def run_driver(qsx, scen_text, workdir, tag, crash_props, call_timeout=20, wall=
         sf = os.path.join(workdir, "%s.%d.scen" % (tag, nproc))
         tf = os.path.join(workdir, "%s.%d.trace" % (tag, nproc))
         with open(sf, "w") as f:
-            f.write("".join(b[1] for b in blocks[i:]))
+            f.write("".join(b[1] for b in (blocks[i:i + 1] if one_per_process else blocks[i:])))
         e = dict(os.environ)
         e["QSX_CALL_TIMEOUT"] = str(call_timeout)
         if env:
@@ -64,6 +64,12 @@ def run_driver(qsx, scen_text, workdir, tag, crash_props, call_timeout=20, wall=
         if crashed is None:
             if rc != 0:
                 raise RuntimeError("driver exit %s without crash record (%s)" % (rc, tf))
+            if one_per_process:
+                i += 1
+                continue
+            if 0 < nscen < len(blocks) - i:
+                i += nscen          # the process ended early (a scenario called shutdown): go on with the rest
+                continue
             break
         crashes.append(crashed)
         # continue after the scenario block in which the crash happened
